@@ -94,6 +94,10 @@ def r1_codec(repo):
         len(rets) == 1 and rets[0].value is calls[0]
     obs.append(Ob("C13-R1", "load_program:pickle.load(file opened 'rb')", _w(l), ok,
                   "load_program must return pickle.load of the file; found %s" % [src(c) for c in calls]))
+    for f_ in (d, l):
+        obs.append(Ob("C13-R1", "%s:undecorated" % f_.name, _w(f_), not f_.decorators,
+                      "%s must not be wrapped (a cache on load_program hands out the already-mutated object for the same "
+                      "path; programs are mutated in place): decorators %s" % (f_.name, [src(x) for x in f_.decorators])))
     return obs
 
 
@@ -282,7 +286,7 @@ def r3_wrapped(repo):
 
 def rules():
     return [
-        RuleSpec("C13-R1", "symmetric codec dump_program / load_program", 2, r1_codec),
+        RuleSpec("C13-R1", "symmetric codec dump_program / load_program", 4, r1_codec),
         RuleSpec("C13-R2", "text and .bin written from one object; replay loads the dump", 9, r2_same_object),
         RuleSpec("C13-R3", "default pickling for every IR class, no unpicklable state", 120, r3_wrapped),
         RuleSpec("C13-R4", "__hash__/__eq__ survive a round trip (no identity)", 8, r4_hash),
@@ -348,6 +352,12 @@ def _v_protocol_asym(tree):
     c.keywords.append(ast.keyword(arg="fix_imports", value=ast.Constant(value=False)))
 
 
+def _v_cached_load(tree):
+    f = V.find_def(tree, "load_program")
+    tree.body.insert(0, V.parse_stmts("import functools")[0])
+    f.decorator_list.append(V.parse_expr("functools.lru_cache(maxsize=None)"))
+
+
 def _t_rename(tree):
     f = V.find_def(tree, "process_cp_transformations")
     V.rename_local(f, "program_str", "text")
@@ -364,6 +374,7 @@ def variants():
         V.Variant("TypeParameter.__hash__ uses id()", "src/ir/types.py", _v_hash_id, {"C13-R4"}),
         V.Variant("ncp text translated from the pre-mutation program", "hephaestus.py", _v_text_of_other_program, {"C13-R2"}),
         V.Variant("--replay regenerates instead of loading", "src/modules/processor.py", _v_replay_regenerates, {"C13-R2"}),
+        V.Variant("load_program cached per path", "src/utils.py", _v_cached_load, {"C13-R1"}),
         V.Variant("twin: rename program_str", "hephaestus.py", _t_rename, None, twin=True),
         V.Variant("twin: whole tree reformatted by ast.unparse", None, None, None, twin=True),
     ]
